@@ -898,6 +898,15 @@ func (e *Exec) procAtomic(op string, p Ptr, arg Value, arg2 Value) Value {
 	return Int{W: w, T: e.TB.Var(reg, w)}
 }
 
+// procSyncN records a synchronisation event with nOut possible outcomes and returns the chosen one.
+func (e *Exec) procSyncN(kind string, p Ptr, nOut int) int {
+	name := e.cellName(p)
+	if _, ok := e.pr.cells[name]; !ok {
+		e.pr.cells[name] = &CellTS{Name: name, W: 64, Init: "#x0000000000000000", Kind: "mutex"}
+	}
+	return e.procEvent(&Event{Kind: kind, Cell: name, Site: e.siteName(kind)}, nOut)
+}
+
 func (e *Exec) procSync(kind string, p Ptr, n int) {
 	name := e.cellName(p)
 	if _, ok := e.pr.cells[name]; !ok {
